@@ -6,6 +6,7 @@
      T tf <id true> <id false>        indices of Function::True / Function::False
      T sheet <name> | T ctxsheet <name> | T defname <name> <scope> <formula>
      C <form> <dot> <lang> <row> <col> <ast atoms...>
+     FR <row1> <col1> <abs_row1> <abs_col1> <row2> <col2> <abs_row2> <abs_col2>   (stored fields of a range)
    A C line answers "<tokens of print> | <dump of parse of those tokens> | <bad pairs> | <image>".
    The rendering of tokens / trees as atoms is the one of harness/c09/src/nodeio.rs. *)
 
@@ -207,4 +208,8 @@ let handle f = match f with
     let m = { pm_rc = false; pm_xlsx = false; pm_dot = true; pm_row = zi "3"; pm_col = zi "3" } in
     let env = { pe_sheets = !sheets; pe_ctx_sheet = !ctx_sheet; pe_defnames = !defnames; pe_tables = [] } in
     bs (image m (names_of "en") env e)
+  | ["FR"; r1; c1; ar1; ac1; r2; c2; ar2; ac2] ->
+    (* does the A1 text of this range omit the row numbers / the column letters? (Syntax/FullRange.v) *)
+    let p1 = mkpref r1 c1 ar1 ac1 and p2 = mkpref r2 c2 ar2 ac2 in
+    bs (full_row p1 p2) ^ " " ^ bs (full_column p1 p2)
   | _ -> "badcase"
